@@ -92,6 +92,7 @@ type c8refl struct {
 type c8world struct {
 	c                 *Ctx
 	probeLg           *zap.Logger
+	failing           *zap.Logger // over a device whose writes fail
 	probeSk           *zsim.SimSink
 	others            []*zap.Logger
 	sinks             []*zsim.SimSink
@@ -167,6 +168,16 @@ func (w *c8world) history(kind, a int, lg *zap.Logger) {
 		if ce := lg.Check(zapcore.InfoLevel, "checked"); ce != nil {
 			ce.Write(zap.Int("a", a))
 		}
+	case 15:
+		// a destination that fails: the error path of the IO core must leave the pools alone
+		switch a % 3 {
+		case 0:
+			w.failing.Info("to a failing device", zap.Int("a", a))
+		case 1:
+			w.failing.DPanic("above Error to a failing device", zap.Int("a", a))
+		default:
+			w.failing.Error("with a reflected field to a failing device", zap.Reflect("r", c8refl{a, "f", nil}))
+		}
 	case 14:
 		w.probeLg.Info("entry without any field on the probe logger")
 	case 13:
@@ -190,7 +201,7 @@ type c8hook struct{ w *c8world }
 
 func (h c8hook) OnWrite(*zapcore.CheckedEntry, []zapcore.Field) { h.w.hookGot++ }
 
-const c8kinds = 15
+const c8kinds = 16
 
 func runC08(c *Ctx) {
 	g, r := c.G, c.R
@@ -251,6 +262,11 @@ func runC08(c *Ctx) {
 			opts = append(opts, zap.AddCaller())
 		}
 		w.others = append(w.others, zap.New(zapcore.NewCore(mkEncI(i == 2, []string{" ", "\t", "  "}[i]), zapcore.Lock(s), zapcore.DebugLevel), opts...))
+	}
+	{
+		fs := zsim.NewSimSink(r, "failing", 1, 77)
+		fs.FailFrom = 1
+		w.failing = zap.New(zapcore.NewCore(mkEnc(g.Chance(2)), zapcore.Lock(fs), zapcore.DebugLevel), zap.WithClock(clk), zap.ErrorOutput(zapcore.AddSync(io.Discard)))
 	}
 	// after the reference call the pools switch to a reusing policy
 	policy := pick(g, simsync.PoolLIFO, simsync.PoolLIFO, simsync.PoolFIFO, simsync.PoolRandom)
